@@ -7,6 +7,8 @@ pub use listener_addr::*;
 use tokio::io;
 
 use crate::ctx;
+#[cfg(era_consensus_verif)]
+use crate::verif::net_shim as tokio;
 
 mod listener_addr;
 pub mod testonly;
